@@ -378,12 +378,65 @@ Fixpoint int_range (n : nat) (from : Z) : list value :=
 
 Definition all_ascii (s : bytes) : bool := forallb (fun c => (c <? 128)%N) s.
 
+(* ------------------------------------------------------------------ runes (UTF-8, RFC 3629) *)
+(* first / rest / for over a string work on runes: a valid UTF-8 sequence is one rune, any byte that does not
+   start one (lone continuation or lead byte, truncated, overlong, surrogate, above U+10FFFF, 0xff) is one rune
+   U+FFFD, written back as its three bytes ef bf bd *)
+Definition is_cont (b : N) : bool := ((128 <=? b) && (b <=? 191))%N.
+Definition in_rng (lo b hi : N) : bool := ((lo <=? b) && (b <=? hi))%N.
+
+(* length of the valid sequence at the head of s; None if the first byte does not start one *)
+Definition utf8_size (s : bytes) : option nat :=
+  match s with
+  | [] => None
+  | b0 :: r =>
+      if (b0 <? 128)%N then Some 1%nat
+      else if in_rng 194 b0 223 then
+        match r with b1 :: _ => if is_cont b1 then Some 2%nat else None | _ => None end
+      else if in_rng 224 b0 239 then
+        match r with
+        | b1 :: b2 :: _ =>
+            if in_rng (if (b0 =? 224)%N then 160 else 128) b1 (if (b0 =? 237)%N then 159 else 191) && is_cont b2
+            then Some 3%nat else None
+        | _ => None
+        end
+      else if in_rng 240 b0 244 then
+        match r with
+        | b1 :: b2 :: b3 :: _ =>
+            if in_rng (if (b0 =? 240)%N then 144 else 128) b1 (if (b0 =? 244)%N then 143 else 191)
+               && is_cont b2 && is_cont b3
+            then Some 4%nat else None
+        | _ => None
+        end
+      else None
+  end.
+
+Definition rune_error : bytes := [239; 191; 189]%N.
+
+(* the first rune (re-encoded) and what follows it *)
+Definition split_rune (s : bytes) : bytes * bytes :=
+  match utf8_size s with
+  | Some k => (firstn k s, skipn k s)
+  | None => (rune_error, tl s)
+  end.
+
+(* the runes of s, each as its UTF-8 bytes (fuel = length of s always suffices) *)
+Fixpoint runes_fuel (fuel : nat) (s : bytes) : list bytes :=
+  match fuel, s with
+  | _, [] => []
+  | O, _ => []
+  | S f, _ => let (r, t) := split_rune s in r :: runes_fuel f t
+  end.
+Definition runes (s : bytes) : list bytes := runes_fuel (length s) s.
+(* string([]rune(s)) *)
+Definition reencode (s : bytes) : bytes := concat (runes s).
+
 (* ------------------------------------------------------------------ text form of values (Inspect) *)
 Definition hexdig (n : N) : N := if (n <? 10)%N then (48 + n)%N else (87 + n)%N.
 Definition esc_x (c : N) (q : bytes) : bytes := (92 :: 120 :: hexdig (c / 16) :: hexdig (N.modulo c 16) :: q)%N.
 
-(* strconv.Quote on the byte universe {ASCII} + {bytes that can never occur in valid UTF-8};
-   None on any other byte (the Unicode tables are not modelled) *)
+(* strconv.Quote on the byte universe {ASCII} + {bytes that start no valid UTF-8 sequence where they stand};
+   None on a valid multi-byte character (the Unicode tables are not modelled) *)
 Fixpoint quote_body (s : bytes) : option bytes :=
   match s with
   | [] => Some [34%N]
@@ -402,8 +455,10 @@ Fixpoint quote_body (s : bytes) : option bytes :=
           else if (c =? 9)%N then Some (92 :: 116 :: q)%N
           else if (c =? 11)%N then Some (92 :: 118 :: q)%N
           else if (c <? 32)%N || (c =? 127)%N then Some (esc_x c q)
-          else if (c =? 192)%N || (c =? 193)%N || (245 <=? c)%N then Some (esc_x c q)
-          else None
+          else match utf8_size s with
+               | None => Some (esc_x c q)   (* a byte that starts no valid sequence *)
+               | Some _ => None             (* a valid multi-byte character: printability needs the Unicode tables *)
+               end
       end
   end.
 Definition quote (s : bytes) : option bytes :=
